@@ -16,6 +16,10 @@ CLAIMS = {
   text="Coq theorems (Props/C13.v). Adjudication loop of Matcher.matches modelled parametrically in the component evaluator (Match/Adjudicate.v): for EVERY set of functions, a stop() firing in component i leaves exactly components 1..i evaluated and the line returnable only if i is last (C13_stop_line); skip() makes the line not match, evaluates nothing after it and the flag is down when the line ends, also as last component (C13_skip_line); without stop/skip all components run left to right and the answer is the AND/OR of votes (C13_calm_line). Run loop, for EVERY matcher: a stopped step halts the fold (C13_stop_run), an advancing line is counted but not evaluated/returned/matched (C13_advance), last() is true on at most one evaluated line (C13_last_once), the blank final record triggers one frozen evaluation that returns nothing and runs only 'last() ->' components (C13_blank_last, C13_blank_last_only_lasts). Tie: Match/Ctl.v instantiates both models with stop/skip/advance/last/push; the property's finite space (control form x position x firing line x scan window x blank pattern) is enumerated on the real CsvPath and returned lines, every stack, counters and the stop flag are compared with the executable model by the Coq kernel. C13_skip_last_leaks_refuted is the witness of the repaired defect D8.",
   note="Trusted: Coq kernel; Match/Ctl.v as a transcription of Stopper/Skipper/Advance/Last/Push/_do_when/Function.matches(frozen) for the AND-mode fragment without onmatch (programs with onmatch look-ahead are outside the theorems: partial); harness. No axioms.",
   technique="Coq proof over parametric adjudication-loop + run-loop models; executable fragment model compared with enumerated real runs by the Coq kernel"),
+ "C14": dict(
+  text="Coq theorem C14_table (Props/C14.v): the model of Equality._do_assignment_new_impl/_latch_and_onchange/_set_variable_if equals the documented qualifier table (stated on conditions: gate, same, latched, guard_blocks; write and vote) for all 256 qualifier subsets, both answers of the rest of the line and ALL values None | int | str, whenever the code does not raise; C14_total: it does not raise on comparable values; corollaries: onmatch gates, latch never votes negative or overwrites, nocontrib neutral; C14_run_step lifts it to a line of a run. Tie: the real _do_assignment_new_impl is called directly (its line_matches parameter) on every subset x lm x value pairs from 14 values, and the property's own bounded quantifier is run on the real interpreter (csvpaths [ @x.<quals> = #a rest ] over 3-line files, x read after every line); both are compared with model and table by the Coq kernel.",
+  note="Trusted: Coq kernel; Match/Assign.v as far as the two correspondences show it equal to equality.py; the reading 'latch wins silently before notnone/increase/decrease are consulted' follows the property text (DESIGN §7 C14); harness. No axioms.",
+  technique="Coq proof (decision procedure == documented table, all subsets and values) + kernel-evaluated correspondence by direct kernel calls and enumerated real runs"),
  "C15": dict(
   text="Coq theorems (Props/C15.v): the two character state machines of metadata_parser.py are modelled exactly; for comments of any length without ~ [ ] $ the csvpath text comes out untouched and the comment goes to the field parser (C15_extract), and any list of rendered 'key: value' fields is recovered (C15_fields, induction over the field list with the parser state as invariant); on the run-loop model, for EVERY matcher: return-mode no-matches flips the returned flag exactly on the offered records and leaves the run state equal (C15_complement), collected/unmatched partition the records read (C15_partition), no-run reads nothing (C15_norun), no-default removes only the stdout printer (C15_print_mode). Tie: real MetadataParser methods vs the model on generated comments (Coq-evaluated), recorded-matcher run-loop correspondence on every real run, and the relations themselves checked between 7 real runs of each generated csvpath (stdout captured at fd level).",
   note="Trusted: Coq kernel; Meta/MetaModel.v (str.isalnum modelled on the generator's alphabet only: ASCII + 3 listed code points) and Run/RunLoop.v as far as the correspondence shows them equal to the code; harness. No axioms.",
